@@ -249,3 +249,29 @@ M("ori3-filter-deleted", "C16", EX, '''                if not isinstance(
                     origin = None
 ''', "", "ORI-3")
 M("ori3-better-origin-no-fallback", "C16", EX, "    except TypeError:\n        return fallback", "    except TypeError:\n        return candidate", "ORI-3")
+
+# ---------------------------------------------------------------- C17
+import os as _os
+_D = _os.path.join(_os.path.dirname(_os.path.abspath(__file__)), "data")
+_AFTER = open(_os.path.join(_D, "glue_block_after_n2.txt")).read()
+_BEFORE = open(_os.path.join(_D, "glue_block_before_n2.txt")).read()
+M("n2-reverted", "C17", GL, _AFTER, _BEFORE, "GLUE-8")
+M("glue1-pending-get", "C17", GL, "    builtin_fn = builtin_glue_pending.pop(module_name, None)", "    builtin_fn = builtin_glue_pending.get(module_name, None)", "GLUE-1")
+M("glue1-module-get", "C17", GL, '        module_fn = sys.modules[module_name].__dict__.pop(\n            "_stackscope_install_glue_", None\n        )', '        module_fn = sys.modules[module_name].__dict__.get(\n            "_stackscope_install_glue_", None\n        )', "GLUE-1")
+M("glue2-builtin-first", "C17", GL, "        if module_fn is not None:\n            module_fn()\n        elif builtin_fn is not None:\n            builtin_fn()", "        if builtin_fn is not None:\n            builtin_fn()\n        elif module_fn is not None:\n            module_fn()", "GLUE-2")
+M("glue2-both", "C17", GL, "        if module_fn is not None:\n            module_fn()\n        elif builtin_fn is not None:\n            builtin_fn()", "        if module_fn is not None:\n            module_fn()\n        if builtin_fn is not None:\n            builtin_fn()", "GLUE-2")
+M("glue3-decorate-no-lock", "C17", GL, "            with glue_lock:\n                install_glue_for_module(needs_module)", "            if True:\n                install_glue_for_module(needs_module)", "GLUE-3")
+M("glue3-loop-outside-lock", "C17", GL, "    with glue_lock:\n        module_names = tuple(sys.modules)\n        for module_name in module_names:\n            install_glue_for_module(module_name)",
+  "    with glue_lock:\n        module_names = tuple(sys.modules)\n    if True:\n        for module_name in module_names:\n            install_glue_for_module(module_name)", ["GLUE-3", "GLUE-5"])
+M("glue4-narrow", "C17", GL, "    except Exception as exc:\n        kind = \"module-provided\"", "    except ImportError as exc:\n        kind = \"module-provided\"", "GLUE-4")
+M("glue4-reraise", "C17", GL, "            RuntimeWarning,\n        )\n\n\ndef add_glue_as_needed", "            RuntimeWarning,\n        )\n        raise\n\n\ndef add_glue_as_needed", "GLUE-4")
+M("glue4-loop-break", "C17", GL, "        for module_name in module_names:\n            install_glue_for_module(module_name)\n", "        for module_name in module_names:\n            install_glue_for_module(module_name)\n            if module_name == 'trio':\n                break\n", "GLUE-4")
+M("glue5-cache-before-loop", "C17", GL, "        module_names = tuple(sys.modules)\n        for module_name in module_names:\n            install_glue_for_module(module_name)\n        # Only update the length cache if we visited every module (rather\n        # than bailing out with an exception)\n        _sys_modules_len_cache[0] = len(module_names)",
+  "        module_names = tuple(sys.modules)\n        _sys_modules_len_cache[0] = len(module_names)\n        for module_name in module_names:\n            install_glue_for_module(module_name)", "GLUE-5")
+M("glue5-cache-fresh-len", "C17", GL, "        _sys_modules_len_cache[0] = len(module_names)", "        _sys_modules_len_cache[0] = len(sys.modules)", "GLUE-5")
+M("glue5-cache-outside-lock", "C17", GL, "        # Only update the length cache if we visited every module (rather\n        # than bailing out with an exception)\n        _sys_modules_len_cache[0] = len(module_names)", "    _sys_modules_len_cache[0] = len(module_names)", "GLUE-5")
+M("glue6-not-imported", "C17", GL, "            module is not None\n            and \"sphinx\" not in sys.modules", "            module is None\n            and \"sphinx\" not in sys.modules", "GLUE-6")
+M("glue6-or-sphinx", "C17", GL, "            module is not None\n            and \"sphinx\" not in sys.modules", "            module is not None\n            or \"sphinx\" not in sys.modules", "GLUE-6")
+M("glue6-never-pending", "C17", GL, "        builtin_glue_pending[needs_module] = fn\n        module = sys.modules.get(needs_module)", "        module = sys.modules.get(needs_module)", "GLUE-6")
+T("twin-glue6-demorgan", "C17", GL, "        if (\n            module is not None\n            and \"sphinx\" not in sys.modules", "        if not (module is None or \"sphinx\" in sys.modules) and (\n            True")
+T("twin-glue7-fixed", "C17", GL, "    if len(sys.modules) == _sys_modules_len_cache[0]:\n        return\n", "")
